@@ -129,20 +129,23 @@ def «open» (shape : Shape) : Open :=
 
 /-- One scripted call through `wrap.ServerToClient`: lookup and shape check, `startStream` (the
 handler sees a clone of the outgoing metadata), then the joint run over a fresh ClientServerStream. -/
-def runCfg (c : Cfg) (shape : Shape) (out : MD) (ss : List SOp) (fin : Fin) (cs : List COp) : Transcript :=
+def runCfg (c : Cfg) (shape : Shape) (out : MD) (ss : List SOp) (fin : Fin) (cs : List COp)
+    (reuse : Bool := false) : Transcript :=
   match «open» shape with
-  | .ok => sev (.incoming (cloneMD out)) (go (impl c) fin {} false (.running ss) (clientOps shape cs))
+  | .ok => sev (.incoming (cloneMD out)) (go (impl c) fin reuse {} false (.running ss) (clientOps shape cs))
   | o => openErrT o
 
-def run := runCfg Cfg.current
+def run (shape : Shape) (out : MD) (ss : List SOp) (fin : Fin) (cs : List COp) (reuse : Bool := false) :
+    Transcript := runCfg Cfg.current shape out ss fin cs reuse
 
 end Wrap
 
 namespace GrpcRef
 
 /-- The same scripted call over a real gRPC connection to the same server. -/
-def run (shape : Shape) (out : MD) (ss : List SOp) (fin : Fin) (cs : List COp) : Transcript :=
-  sev (.incoming out) (go impl fin {} false (.running ss) (clientOps shape cs))
+def run (shape : Shape) (out : MD) (ss : List SOp) (fin : Fin) (cs : List COp) (reuse : Bool := false) :
+    Transcript :=
+  sev (.incoming out) (go impl fin reuse {} false (.running ss) (clientOps shape cs))
 
 end GrpcRef
 end ScVerif.C13
